@@ -15,14 +15,18 @@ def x25(bs):
 
 class C07(Prop):
     pid = "C07"
-    lean_targets = ["M17.Props.C07", "M17.Props.C07A"]
+    lean_targets = ["M17.Props.C07", "M17.Props.C07A", "M17.Props.C07C"]
     theorems = ["M17.C07.lich_slot_in_range", "M17.C07.viterbi_metric_no_overflow", "M17.C07.callsign_index_le_9",
                 "M17.C07.depuncture_fills_buffer", "M17.C07.framer_index_in_range", "M17.C07.packet_size_le_25",
-                "M17.C07.clock_index_in_range", "M17.C07A.repeaters_in_bounds", "M17.C07A.parse_in_bounds"]
+                "M17.C07.clock_index_in_range", "M17.C07A.repeaters_in_bounds", "M17.C07A.parse_in_bounds",
+                "M17.C07C.free_index_in_range", "M17.C07C.locked_index_in_range"]
     level_text = ("Lean 4 range theorems over the models of C01-C05, C11, C17 (for ALL inputs): the LICH slot written is 0..5 and stays inside "
                   "the 30-byte LSF; Viterbi path metrics stay below 2^31 for trellises up to 244 steps (history size); decode_callsign "
                   "writes at most 9 characters into its 10-byte array; depuncture fills exactly its output buffer; the framer's fill index stays "
-                  "even and below 368 and returns to 0; packet size is clamped to 25; a symbol-timing estimate in [0,10) rounds to an index 0..9; "
+                  "even and below 368 and returns to 0; packet size is clamped to 25; a symbol-timing estimate in [0,10) rounds to an index 0..9, and (C07C.free_index_in_range) the "
+                  "free-running ClockRecovery::update() — fmod, one wrap, round, wrap — yields an index 0..9 for EVERY estimate, clock offset and "
+                  "number of samples since the last sync word (exact model in units of 2^-20 sample, tied bit-exactly to the real class where the "
+                  "float computation is exact, range oracle elsewhere); "
                   "parse_in_bounds: every substr / operator[] / iterator range formed by the model of ax25_frame::parse lies inside the frame, "
                   "for every frame length and content (model tied to the real class field by field on hostile frames). "
                   "What these theorems cannot exhibit — float-to-int conversions, the Kalman arithmetic, and the application handlers' indexing "
@@ -126,6 +130,42 @@ class C07(Prop):
             model = ctx.run_model(lines)
             ctx.compare("ax25", lines, out, model, oracle=lambda ln, a: None, sig=lambda ln: "len%d" % (len(ln.split()) - 1))
 
+    def clock_stage(self, ctx, demod):
+        """ClockRecovery's free-running update() (the real class) with its members set to arbitrary values: the sample index must stay 0..9 for
+        every estimate, clock offset and number of samples since the last sync word (theorem C07C.free_index_in_range about the exact
+        model); where the float computation is exact (dyadic values, small products) the real class must equal the model"""
+        rng = ctx.rng
+        quick = ctx.tier == "quick"
+        exact, wild = [], []
+        for _ in range(400 if quick else 20000):
+            est = rng.randrange(0, 2560) * 4096               # multiples of 2^-8 in [0, 10)
+            clk = rng.randrange(-1024, 1025)                  # up to +-977 ppm in units of 2^-20
+            cnt = rng.choice([0, 1, 192, 1920, rng.randrange(0, 4096)])
+            exact += [est, clk, cnt]
+        for _ in range(400 if quick else 20000):
+            est = rng.randrange(-2 * 1048576, 12 * 1048576)
+            clk = rng.choice([1, -1]) * rng.choice([1, 21, 105, 210, 315, 1049, rng.randrange(1, 5000)])    # 1..5000 ppm-ish
+            cnt = rng.choice([0, 1920, 19200, 192000, 1000000, 10000000, rng.randrange(0, 2 * 10 ** 7)])
+            wild += [est, clk, cnt]
+        l1 = "clock_free " + " ".join(map(str, exact)); l2 = "clock_free " + " ".join(map(str, wild))
+        o = demodlib.run_resilient(ctx, demod, [l1, l2], "clock")
+        for ln, a, tag in ((l1, o[0], "exact"), (l2, o[1], "long-coast")):
+            ctx.count(ln[:200], nontrivial=True)
+            vals = a.split()
+            ctx.stat(f"clock:{tag}", len(vals))
+            t = ln.split()[1:]
+            for k, v in enumerate(vals):
+                ctx.evaluations += 1
+                if not v.lstrip("-").isdigit() or not (0 <= int(v) <= 9):
+                    e, c, n = t[3 * k:3 * k + 3]
+                    ctx.violate("clock:index-range", f"ClockRecovery::update() with sample estimate {int(e)/1048576:.4f}, clock estimate {int(c)/1.048576:.1f} ppm, "
+                                f"{n} samples since the last sync word: sample_index_ = {v} (documented range 0..9)",
+                                {"stream": "clock", "ops": [f"clock_free {e} {c} {n}"], "impl": v})
+                    break
+        if ctx.model_ok:
+            m = ctx.run_model([l1])
+            ctx.compare("clock", [l1], [o[0]], m, oracle=lambda ln, a: None, sig=lambda ln: "clock_free")
+
     @staticmethod
     def hist(lines, ln):
         from lib import deccheck
@@ -140,6 +180,7 @@ class C07(Prop):
         quick = ctx.tier == "quick"
         self.lich_slot_stage(ctx)
         self.ax25_stage(ctx, demod)
+        self.clock_stage(ctx, demod)
         lines = []
         # app handlers with arbitrary content
         for _ in range(300 if quick else 5000):
